@@ -287,6 +287,17 @@ func replayHll(in *core.Lines, args []string, seed int64, sum *core.Summary) err
 		if err := json.Unmarshal(line, &c); err != nil {
 			return fmt.Errorf("line %d: %v", in.N, err)
 		}
+		if c.K == "hist" {
+			if err := replayHllHist(line, sum); err != nil {
+				return fmt.Errorf("line %d: %v", in.N, err)
+			}
+			if sum.Cases%1500 == 11 {
+				var raw any
+				json.Unmarshal(line, &raw)
+				sum.Sample(raw)
+			}
+			continue
+		}
 		var raw any
 		json.Unmarshal(line, &raw)
 		sum.Cases++
